@@ -443,6 +443,43 @@ var scenarios = map[string]func(t *testing.T, rep *Report, root string){
 		}
 		s.StopAll()
 	},
+	// S20, second face: the late chunk carries bytes; the file for the newer label is closed holding an
+	// image followed by bytes of the other snapshot, is published, and is handed to Restore
+	// (the library ends the process when Restore refuses it)
+	"S20-mixed-chunks-unparsable": func(t *testing.T, rep *Report, root string) {
+		s := NewSim(root, SimOpts{SnapEvery: 1000})
+		var bad []string
+		s.OnBadRestore = func(node uint64, size int, err error) {
+			bad = append(bad, fmt.Sprintf("node %d: Restore was handed %d bytes that are not a state machine image: %v", node, size, err))
+		}
+		n, err := s.Boot(1, "", 0, nil)
+		if err != nil {
+			t.Fatal(err)
+		}
+		s.Start(1)
+		w := &World{S: s, rep: rep, violated: map[string]bool{}, walkID: "directed scenario S20-mixed-chunks-unparsable"}
+		cfg, _ := codec.EncodeConfiguration((&Cfg{Index: 1, Members: [][2]uint64{{1, 1}, {2, 1}}}).ToRaft())
+		var resp raft.InstallSnapshotResponse
+		r1 := &raft.InstallSnapshotRequest{LeaderID: "2", Term: 2, LastIncludedIndex: 20, LastIncludedTerm: 2, Configuration: cfg, Bytes: []byte(`{"count":0,"last_index":0,"hash":"","indices":null}`), Offset: 0, Done: false}
+		n.Rec.SetIS(20, 2)
+		n.Tr.is(r1, &resp)
+		r2 := &raft.InstallSnapshotRequest{LeaderID: "2", Term: 2, LastIncludedIndex: 10, LastIncludedTerm: 1, Configuration: cfg, Bytes: []byte("cHBwcHBw"), Offset: int64(len(r1.Bytes)), Done: true}
+		n.Rec.SetIS(10, 1)
+		n.Tr.is(r2, &resp)
+		n.Rec.ClearIS()
+		synctest.Wait()
+		w.trackMixing()
+		w.checkSnapshots()
+		if len(bad) > 0 {
+			pat := "restore-unparsable"
+			if len(w.tainted[1]) > 0 {
+				pat = "restore-of-mixed-chunks"
+			}
+			w.violate("C10", "a state machine was restored from bytes that are not a state machine image", bad[0],
+				map[string]string{"oracle": "snapshot-exact", "pattern": pat})
+		}
+		s.StopAll()
+	},
 }
 
 func TestE4Directed(t *testing.T) {
